@@ -1347,14 +1347,18 @@ class DigitalWaveform(Generic[TDigitalState]):
             )
 
         if copy:
+            samples = array[start_index : start_index + sample_count]
             if sample_count > len(self._data):
                 # Don't grow a buffer that the following copy cannot write to.
                 if not self._data.flags.writeable or (
                     self._data_1d is not None and not self._data_1d.flags.writeable
                 ):
                     raise ValueError("assignment destination is read-only")
+                if np.may_share_memory(samples, self._data):
+                    # Growing can move the buffer, so read a source that refers to it first.
+                    samples = samples.copy()
                 self.capacity = sample_count
-            self._data[0:sample_count] = array[start_index : start_index + sample_count]
+            self._data[0:sample_count] = samples
             self._start_index = 0
             self._sample_count = sample_count
         else:
